@@ -20,8 +20,17 @@ _PT = "XonshVerif.Proofs.Tokenize"
 _PR = "XonshVerif.Proofs.Regex"
 _C02 = "XonshVerif.Properties.C02"
 _INERT = [("XV.Peg.xonsh_alternatives_inert", _C02), ("XV.Peg.second_pass_never_accepts", _C02), ("XV.Peg.dead_never_succeeds", "XonshVerif.Proofs.PegDead")]
+_HELP = "XonshVerif.Model.Helpers"
+_PM = "XonshVerif.Proofs.Macro"
+_PC = "XonshVerif.Proofs.PegCost"
+_TS = "XonshVerif.Model.TokenSource"
 THEOREMS = {
-    "C01": _INERT,
+    "C01": _INERT + [("XV.Helpers.kw_defaults_length", _HELP), ("XV.Helpers.defaults_le_positional", _HELP), ("XV.Helpers.args_order", _HELP),
+                     ("XV.Src.kept_no_trivia", _TS), ("XV.Src.kept_sublist", _TS)],
+    "C07": [("XV.Macro.loop_partition", _PM), ("XV.Macro.param_is_concat", _PM), ("XV.Macro.concat_is_source_slice", _PM)],
+    "C08": [("XV.Tz.pseudo_token_is_source_slice", "XonshVerif.Proofs.Tiling"), ("XV.Tz.handleEndProgs_adv", _PT), ("XV.Tz.nextPseudo_adv", _PT), ("XV.Tz.scanLine_no_loopFuel", _PT)],
+    "C11": [("XV.Helpers.error_wellformed", _HELP)],
+    "C18": [("XV.Peg.no_multi_edge_on_cycle", _PC), ("XV.Peg.memo_hit_is_constant", _PC)],
     "C02": _INERT,
     "C05": _INERT,
     "C03": [
@@ -122,6 +131,8 @@ def _cert_names():
 _B = "XonshCerts.Basic"
 _R = "XonshCerts.Regex"
 _D = "XonshCerts.Dead"
+_CO = "XonshCerts.Cost"
+_AC = "XonshCerts.Actions"
 _DEAD = [("XVC.dead_cert", _D), ("XVC.dead_rules_expected", _D), ("XVC.dead_alternatives_expected", _D), ("XVC.shipped_xonsh_alternatives_inert", _D)]
 _RX_PROGRESS = [("XVC.regex_translation_complete", _R), ("XVC.pseudo_branches_progress", _R), ("XVC.pseudo_branch_names", _R), ("XVC.string_patterns_progress", _R), ("XVC.quotes_covered", _R)]
 CERTS = {
@@ -134,7 +145,11 @@ CERTS = {
     "C05": [("XVC.ir_complete", _B)] + _DEAD,
     "C03": [("XVC.ir_complete", _B)] + _RX_PROGRESS + [("XVC.gen_pseudo_progress", _R), ("XVC.shipped_tokenizer_total", _R)],
     "C06": [("XVC.bracket_method_table", _B)],
-    "C18": [("XVC.ir_complete", _B)],
+    "C18": [("XVC.ir_complete", _B), ("XVC.cycle_cert", _CO), ("XVC.memo_mask_correct", _CO), ("XVC.memoised_rules_expected", _CO), ("XVC.shipped_no_multi_edge_on_cycle", _CO)],
+    "C04": [("XVC.ir_complete", _B), ("XVC.no_nullable_required_field", _AC), ("XVC.action_fields_nonempty", _AC)],
+    "C13": [("XVC.state_inventory_expected", _AC)],
+    "C07": [("XVC.ir_complete", _B)],
+    "C11": [("XVC.ir_complete", _B)],
 }
 
 
@@ -250,15 +265,65 @@ def corr_tok(pid):
     return run
 
 
+def corr_helpers(pid, kinds):
+    def run(rep, tier):
+        from harness import corr
+        from harness.common import rng
+        from harness.gen import corpus, pyprog, xonshgen
+        from harness.props import c11
+
+        r = rng(pid, "helpers")
+        n = 1 if tier == "quick" else 20
+        srcs = []
+        if "macro" in kinds:
+            for _ in range(250 * n):
+                x, _fn, _args = xonshgen.gen_call_macro(r)
+                srcs.append(f"r = {x}\n")
+            srcs += ["f!(a[)\n", "f!(]\n", "f!(,x)\n", "f!(a, (b]\n", "f!(x\n", "f!( ñ , y)\n", "f!()\n", "f!(a,)\n", "f!(a)(b)!(c, d)\n"]
+        if "makeargs" in kinds:
+            srcs += [s for s in corpus.PY_STMTS if "def " in s or "lambda" in s]
+            for _ in range(150 * n):
+                g = pyprog.gen_program(r, maxdepth=3, nstmts=2)
+                if g and ("def " in g[0] or "lambda" in g[0]):
+                    srcs.append(g[0])
+        if "builderr" in kinds:
+            srcs += list(c11.INVALID_SNIPPETS) + ["ok = 1\n\n" + s for s in c11.INVALID_SNIPPETS]
+        bad = corr.run_helper_correspondence(rep, corr.helper_cases(srcs), kinds)
+        for b in bad[:3]:
+            rep.extra.setdefault("correspondence_disagreements", []).append(b)
+
+    return run
+
+
+def corr_pipeline(pid):
+    def run(rep, tier):
+        from harness import corr
+        from harness.common import rng
+        from harness.gen import corpus, mutate, xonshgen
+        from harness.props import c11
+
+        r = rng(pid, "pipeline")
+        n = 300 if tier == "quick" else 6000
+        srcs = list(corpus.PY_STMTS) + list(c11.INVALID_SNIPPETS) + list(xonshgen.XONSH_STMTS) + [mutate.soup(r) for _ in range(n)]
+        srcs += [mutate.damage(s, r) for s in corpus.PY_STMTS]
+        bad = corr.run_pipeline_correspondence(rep, corr.pipeline_cases(srcs))
+        for b in bad[:3]:
+            rep.extra.setdefault("correspondence_disagreements", []).append(b)
+
+    return run
+
+
 CORR = {
+    "C07": [corr_helpers("C07", ("macro",))],
+    "C11": [corr_helpers("C11", ("builderr",))],
     "C06": [corr_c06],
-    "C01": [corr_peg("C01", xonsh=False)],
+    "C01": [corr_peg("C01", xonsh=False), corr_helpers("C01", ("makeargs",))],
     "C02": [corr_peg("C02")],
     "C05": [corr_peg("C05")],
-    "C03": [corr_peg("C03"), corr_tok("C03")],
+    "C03": [corr_peg("C03"), corr_tok("C03"), corr_pipeline("C03")],
     "C18": [corr_peg("C18")],
     "C08": [corr_tok("C08")],
     "C09": [corr_tok("C09")],
     "C10": [corr_tok("C10")],
-    "C14": [corr_tok("C14")],
+    "C14": [corr_tok("C14"), corr_pipeline("C14")],
 }
